@@ -1050,10 +1050,10 @@ func TestVerifTxNotifier(t *testing.T) {
 	out := xOpenOut()
 	defer out.close()
 	master := &xrng{s: uint64(xEnvInt("VERIF_SEED", 1))}
-	ncases := xCases(260, 6000)
+	ncases := xCases(260, 3000)
 	depth := 0
 	if xTier() == "thorough" {
-		depth = int(xEnvInt("VERIF_ENUM_DEPTH", 6))
+		depth = int(xEnvInt("VERIF_ENUM_DEPTH", 4))
 	}
 	depth = int(xEnvInt("VERIF_ENUM_DEPTH", int64(depth)))
 
